@@ -93,6 +93,9 @@ fn lib_source(g: &mut Rng, session: bool) -> (String, Vec<String>) {
         ("tostr", "\"v=\" + lib.arr".into()),
         ("cmp", "lib.arr == [lib.arr[0], lib.arr[1], 1]".into()),
         ("hidden", "lib.secret + 1".into()),
+        // a nested evaluation whose failure the embedder swallows, while this field (and its object) is in flight
+        ("trynat", "std.native(\"tryOther\")(lib.shallow + 6)".into()),
+        ("tryobj", "{ assert std.native(\"tryOther\")(lib.shallow == 1) : \"tryobj\", q: lib.nested.inner.other }".into()),
     ];
     // always present: shallow, arr, deep, secret; others by swarm
     let mut names = Vec::new();
@@ -117,7 +120,7 @@ fn client_source(g: &mut Rng, names: &[String], via: &str) -> String {
         _ => "(import \"lib.libsonnet\")",
     };
     let f = |g: &mut Rng| g.pick(names).clone();
-    match g.below(26) {
+    match g.below(27) {
         0 => format!("{l}.{}", f(g)),
         1 => format!("local l = {l}; [l.{}, l.{}]", f(g), f(g)),
         2 => format!("local l = {l}; {{ a: l.{}, b: l.{} }}", f(g), f(g)),
@@ -146,6 +149,7 @@ fn client_source(g: &mut Rng, names: &[String], via: &str) -> String {
         22 => "{ x: -5, shallow: 7, y: 3 }".to_string(),
         23 => format!("{l}.guarded"),
         24 => format!("local l = {l}; function(patch) [l.guarded + patch, l.checked + patch]"),
+        25 => format!("local l = {l}; [std.native(\"tryOther\")(l.{}), l.{}]", f(g), f(g)),
         _ => format!("{l}"),
     }
 }
